@@ -12,6 +12,8 @@ Policy / tier stream (`newp` starts a case): raw updates carry the validators' v
   | `match key ep` | `unmatch key ep` (issued by the real ARC) | `status insync` | `flush`
   output `ok`, for `flush` the emitted endpoint tier data sorted by endpoint
   (`ep tag profs T:name=order=action=policies+…`, `ep nil`; `skip` when not in sync, `panic`).
+  `pflush`: the EventSequencer flushes to the dataplane; output `P=` the profile rules CONTENT the
+  dataplane then holds (`D` deny-all stand-in / `R:<id>`), which must be the rule scanner's view.
 Output: the rule scanner's view (active profiles with dummy-drop `D` or real rules `R:<id>`)
 and the sorted OnProfileActive/Inactive calls of this op.
 -/
@@ -46,6 +48,9 @@ def stepProf (st : Arc String) (line : String) : Option (Arc String × String) :
   match words line with
   | ["new"] => some (Arc.new String, "ok")
   | ["insync"] => some (st, render st.out.length st)
+  | ["pflush"] =>
+    -- end of a flush window: what the dataplane holds afterwards = the rule scanner's view
+    some (st, "P=" ++ showList ((view st.out).map (fun (p : String × OutRules String) => s!"{p.1}={showOut p.2}")))
   | "ep" :: id :: ids :: valid :: _ =>
     match parseValid valid with
     | some b =>
